@@ -40,6 +40,7 @@ type ctrlWorld struct {
 	watchBlock    bool // next Watch call blocks until cancelled
 	listFaultAt   int
 	listFaultKind string
+	backlog       int // server changes since the watch was last seen connected at a quiescent point
 }
 
 var errListFault = errors.New("fake server: list fault")
@@ -64,6 +65,12 @@ func (w *ctrlWorld) wait() { settle(&w.hookN) }
 func (w *ctrlWorld) now() string { return fmt.Sprint(time.Since(w.start).Milliseconds()) }
 
 func (w *ctrlWorld) srvEvent() {
+	// what one reconnect replays at once stays within the backlog bound of the properties (EventBufsiz/4):
+	// overflow of the watch buffers is a fault of C03's kind ("lost or overflowed events"), repaired by the relist
+	if w.backlog >= inflight(1<<30) {
+		return
+	}
+	w.backlog++
 	k := kv.Pick(w.r, treeKeys)
 	key := k[0] + "/" + k[1]
 	cur, ok := w.srv.Get(key)
@@ -158,6 +165,9 @@ func (w *ctrlWorld) observe() {
 	subdone := "none"
 	if w.sub != nil {
 		subdone = kv.Bool(isClosed(w.sub.Done()))
+	}
+	if len(w.srv.LiveWatches()) > 0 {
+		w.backlog = 0
 	}
 	w.tr.line(kv.L("cobs", w.now(), kv.Bool(isClosed(w.root.Ready())), kv.Bool(isClosed(w.root.Done())), errClass(w.root.Error()),
 		cacheSx(w.root.Cache()), evs, kv.Bool(evclosed), subdone, fmt.Sprint(len(w.srv.LiveWatches())), fmt.Sprint(w.srv.MaxActive), kv.L(calls...)))
@@ -304,7 +314,7 @@ func runCtrlScenario(t *testing.T, tr *tracer, idx int, seed uint64, mode string
 				})
 				w.step("race-relist", func() {
 					tr.line(kv.L("burst-begin"))
-					for j := 3 + r.Intn(6); j > 0; j-- {
+					for j := inflight(3 + r.Intn(6)); j > 0; j-- {
 						w.srvEvent()
 					}
 					w.srv.Mu(func() { w.srv.ListGate = nil })
@@ -315,7 +325,7 @@ func runCtrlScenario(t *testing.T, tr *tracer, idx int, seed uint64, mode string
 				// a burst and, at once, the end of the stream
 				w.step("burst-close", func() {
 					tr.line(kv.L("burst-begin"))
-					for j := 2 + r.Intn(6); j > 0; j-- {
+					for j := inflight(2 + r.Intn(6)); j > 0; j-- {
 						w.srvEvent()
 					}
 					w.inject("close")
@@ -324,7 +334,7 @@ func runCtrlScenario(t *testing.T, tr *tracer, idx int, seed uint64, mode string
 			default:
 				w.step("burst", func() {
 					tr.line(kv.L("burst-begin"))
-					for j := 2 + r.Intn(5); j > 0; j-- {
+					for j := inflight(2 + r.Intn(5)); j > 0; j-- {
 						w.srvEvent()
 					}
 					tr.line(kv.L("burst-end"))
